@@ -213,6 +213,45 @@ func c11Scenarios() []scenario {
 			out = append(out, scenario{Name: "meta:" + mo.Name, Text: gen.Text(prog), Vars: map[string]string{}, Bal: bal, Meta: env.Meta{"b": {"acc": "a", "k": "old"}, "a": {"k": "old", "j": "old"}}})
 		}
 	}
+	// list-shaped constructs with 3 and 5 elements (slices the parser built by appending: their
+	// backing arrays have spare capacity that every Run of the same parsed script shares)
+	for _, n := range []int{3, 5} {
+		d := &gen.DstInorder{Remaining: &gen.To{D: da("x")}}
+		var srcs []gen.Source
+		sal := &gen.SrcAllot{}
+		dal := &gen.DstAllot{}
+		for i := 0; i < n; i++ {
+			d.Clauses = append(d.Clauses, &gen.DstClause{Cap: gen.Mon("USD", "1"), To: &gen.To{D: da(fmt.Sprintf("d%d", i))}})
+			srcs = append(srcs, sa([]string{"a", "b", "x"}[i%3]))
+			var pa gen.Allot = gen.Port(fmt.Sprintf("1/%d", n+1))
+			if i == n-1 {
+				pa = &gen.Remaining{}
+			}
+			sal.Items = append(sal.Items, &gen.SrcAllotItem{A: pa, From: &gen.SrcOverdraft{Addr: gen.Acct([]string{"a", "b", "x"}[i%3])}})
+			var pd gen.Allot = gen.Port(fmt.Sprintf("1/%d", n+1))
+			if i == n-1 {
+				pd = &gen.Remaining{}
+			}
+			dal.Items = append(dal.Items, &gen.DstAllotItem{A: pd, To: &gen.To{D: da(fmt.Sprintf("d%d", i))}})
+		}
+		for k, prog := range []*gen.Program{
+			{Stmts: []gen.Stmt{sendN("USD", "6", lst(srcs...), d)}},
+			{Stmts: []gen.Stmt{sendN("USD", "7", sal, dal)}},
+			{Stmts: []gen.Stmt{sendAllS("USD", lst(srcs...), dal), &gen.Call{Name: "set_tx_meta", Args: []gen.Expr{gen.Str("k"), gen.Num("1")}}, &gen.Call{Name: "set_tx_meta", Args: []gen.Expr{gen.Str("j"), gen.Num("2")}}}},
+		} {
+			out = append(out, scenario{Name: fmt.Sprintf("lists-%d-%d", n, k), Text: gen.Text(prog), Vars: map[string]string{}, Bal: bal, Meta: meta})
+		}
+	}
+	// two malformed variable values of different kinds: which one is reported must not depend on
+	// the order in which the variables map is iterated
+	{
+		b := c12Bases()[1] // allot-cap: portion $p, monetary $cap
+		out = append(out, scenario{Name: "two-malformed-vars", Text: gen.Text(b.Mk()), Vars: map[string]string{"p": "abc", "cap": "USD x"}, Bal: bal, Meta: meta})
+		b6 := c12Bases()[5]
+		if b6.Name == "meta-six" {
+			out = append(out, scenario{Name: "three-malformed-vars", Text: gen.Text(b6.Mk()), Vars: map[string]string{"n": "x", "amt": "USD", "p": "7/0", "s": "k", "src": "", "as": "USD"}, Bal: bal, Meta: meta})
+		}
+	}
 	for _, b := range c12Bases() {
 		prog := b.Mk()
 		vars := map[string]string{}
